@@ -334,7 +334,7 @@ func (b *Backoffer) Fork() (*Backoffer, context.CancelFunc) {
 }
 
 // UpdateUsingForked updates Backoffer's status using forked one's
-// Note: Make sure forked is no longer used after this, because b reuses forked's errors/backoffSleepMS/backoffTimes fields
+// Note: Make sure forked is no longer used after this, because b reuses forked's errors/configs/backoffSleepMS/backoffTimes fields
 func (b *Backoffer) UpdateUsingForked(forked *Backoffer) {
 	if forked == nil {
 		return
@@ -345,6 +345,7 @@ func (b *Backoffer) UpdateUsingForked(forked *Backoffer) {
 			b.excludedSleep = forked.excludedSleep
 			b.errors = forked.errors
 			b.errorsNum = forked.errorsNum
+			b.configs = forked.configs
 			b.backoffSleepMS = forked.backoffSleepMS
 			b.backoffTimes = forked.backoffTimes
 			break
